@@ -94,6 +94,10 @@ fn base_images() -> Vec<(String, Built)> {
     add("b32-no-notes-text4097", Spec { is64: false, pt_note: false, section_note: false, text_len: 4097, ..d.clone() });
     add("b64-no-notes-rodata-first", Spec { pt_note: false, section_note: false, rodata_first: true, ..d.clone() });
     add("b32-no-notes-rodata-first-text5000", Spec { is64: false, pt_note: false, section_note: false, rodata_first: true, text_len: 5000, ..d.clone() });
+    // section names that merely END in the looked-for names, stored first in .shstrtab (no tail merging)
+    add("b64-decoy-names", Spec { decoy_names: true, ..d.clone() });
+    add("b64-decoy-names-no-ptnote", Spec { decoy_names: true, pt_note: false, ..d.clone() });
+    add("b32be-decoy-names-no-ptnote", Spec { is64: false, be: true, decoy_names: true, pt_note: false, ..d.clone() });
     add("b64-no-soname", Spec { soname: None, ..d.clone() });
     add("b64-no-sections", Spec { sections: false, ..d.clone() });
     add("b64-abi-note-first", Spec { abi_note_first: true, ..d.clone() });
